@@ -7,7 +7,9 @@ PROP = "C11"
 RUNNER = ("RunTransform", "run_C11")
 COQ_TARGETS = ["theories/RunTransform.vo"]
 AUTHORITY = ("C11_* (coq/props/C11.v): for every binary valuation the exported dictionary sums to the objective; keys canonical; "
-             "no zero coefficient; refusal conditions")
+             "no zero coefficient; refusal conditions; C11_pubo_evaluation / C11_qubo_evaluation: the dictionary reproduces the objective "
+             "reported by Instance::evaluate at every state that is 0/1 on the binaries; export defined <=> no active constraint, "
+             "not maximisation, used variables binary")
 RULE = ("binary instances, objective degree <= 4 (PUBO) / <= 2 (QUBO) over <= 8 variables in any representation (repeated ids inside "
         "a monomial, x_i^2, split / cancelling / zero terms, near-epsilon coefficients); the runner compares the dictionary with the "
         "model's as a formal square-free polynomial, checks canonical distinct keys and non-zero coefficients, and independently "
